@@ -262,4 +262,63 @@ Proof.
   unfold nonneg. erewrite bal_insert_htx; [|exact H3]. erewrite bal_insert_hbatch; [|exact H2].
   eapply add_to_balance_nonneg; [exact Hn0|apply wrap64_nonneg|exact H1].
 Qed.
+
+(* ---- all or nothing ------------------------------------------------------------------ *)
+(* a batch that is not applied returns no state at all: whatever the caller then does to the
+   history status, the balances are the ones before the batch *)
+Lemma apply_batch_applied_is_record h s hs txs rates avgs s' :
+  apply_batch c h s hs txs rates avgs = BApplied s' -> record_batch c h hs rates avgs txs s = Ok s'.
+Proof.
+  unfold apply_batch.
+  destruct (check_txs c h s rates avgs txs) eqn:E1; [intros ->; exfalso; eapply check_txs_not_applied; eauto|].
+  destruct (sim_txs c h _ rates avgs (bal s) txs) eqn:E2; [intros ->; exfalso; eapply sim_txs_not_applied; eauto|].
+  destruct (record_batch c h hs rates avgs txs s); intros H; inversion H; reflexivity.
+Qed.
+
+(* a held batch: either no balance changes at all (skipped, invalid, replay, rejected with any code,
+   dropped), or the complete batch was recorded *)
+Lemma apply_held_all_or_nothing cur rates avgs s e hh s' isp :
+  apply_held c cur rates avgs s e hh = Ok (s', isp) ->
+  bal s' = bal s \/
+  exists txs, entry_valid_at c e hh = Some txs /\ record_batch c cur (e_hash e) rates avgs txs s = Ok s'.
+Proof.
+  unfold apply_held. intros H.
+  destruct (entry_valid_at c e hh) as [txs|] eqn:Ev; [|inversion H; auto].
+  destruct (_ && has_peg_conversion txs); [inversion H; auto|].
+  destruct (entry_valid_at c e cur); [|inversion H; auto].
+  destruct (is_replay s (e_hash e)); [inversion H; auto|].
+  destruct (apply_batch c cur s (e_hash e) txs rates avgs) as [s2|code| |code] eqn:Eb; try discriminate;
+    inversion H; subst; auto.
+  right. exists txs. split; [reflexivity|]. apply apply_batch_applied_is_record; exact Eb.
+Qed.
+
+(* the same for an entry arriving in a block: history rows are inserted (no balance involved), then
+   either nothing, or holding, or the complete batch *)
+Lemma apply_entry_all_or_nothing h s order e s' :
+  apply_entry c h s order e = Ok s' ->
+  bal s' = bal s \/
+  exists txs s1, entry_valid_at c e h = Some txs /\ has_conversions txs = false /\ bal s1 = bal s /\
+                 record_batch c h (e_hash e) ∅ ∅ txs s1 = Ok s'.
+Proof.
+  unfold apply_entry. intros H.
+  destruct (entry_valid_at c e h) as [txs|] eqn:Ev; [|inversion H; auto].
+  destruct (is_replay s (e_hash e)); [inversion H; auto|].
+  destruct (hist_has s (e_hash e)); [inversion H; auto|].
+  apply rbind_ok in H as (s1 & H1 & H2). pose proof (insert_history_bal _ _ _ _ _ _ H1) as E1.
+  destruct (has_conversions txs) eqn:Hc; [left; rewrite (bal_insert_holding _ _ _ _ H2); exact E1|].
+  destruct (apply_batch c h s1 (e_hash e) txs ∅ ∅) as [s2|code| |code] eqn:Eb.
+  - inversion H2; subst. right. exists txs, s1. repeat split; auto. apply apply_batch_applied_is_record; exact Eb.
+  - destruct (code =? -1); inversion H2; subst. left. exact E1.
+  - inversion H2; subst. left; exact E1.
+  - discriminate.
+Qed.
+
+(* every debit of a recorded batch was covered by the balance at that very moment *)
+Lemma record_txs_first_debit_covered h hs rates avgs idx t txs s s' :
+  record_txs c h hs rates avgs idx (t :: txs) s = Ok s' ->
+  tx_amt t = 0 \/ tx_amt t < 0 \/ 0 < tx_amt t <= get_bal (bal s) (tx_addr t) (tx_type t).
+Proof.
+  cbn [record_txs]. destruct (sub_from_balance s (tx_addr t) (tx_type t) (tx_amt t)) as [s1| |code] eqn:Es; try discriminate.
+  intros _. apply sub_from_balance_ok in Es as (_ & Hr & _). tauto.
+Qed.
 End WithCfg.
